@@ -1,6 +1,8 @@
 """C15 — alias tracking is exact: no leaked write, no spurious refusal."""
 import gc
 
+from hypothesis import strategies as st
+
 from harness.loader import load
 from harness.runner import Part
 from harness import world as W
@@ -136,10 +138,169 @@ def run(case, ctx):
     ctx.label("has_table_constructor", int(h.table_ops > 0))
     ctx.label("column_replaced_through_indexed_accessor", int(getattr(h, "indexed_assigns", 0) > 0))
 
+# ---------------------------------------------------------------- directed: operation results are private
+RESULT_OPS = {
+    "copy": lambda v: v.copy(), "slice_full": lambda v: v[:], "slice_head": lambda v: v[0:1], "slice_rev": lambda v: v[::-1],
+    "mask_all": lambda v: v[[True] * len(v)], "index0": lambda v: v[[0]], "isna": lambda v: v.isna(),
+    "eq_self": lambda v: v == v, "ne_self": lambda v: v != v, "lt_self": lambda v: v < v, "neg": lambda v: -v, "pos": lambda v: +v,
+    "abs": lambda v: abs(v), "add0": lambda v: v + 0, "radd0": lambda v: 0 + v, "mul1": lambda v: v * 1, "add_self": lambda v: v + v,
+    "fillna": lambda v: v.fillna(v[0]), "dropna": lambda v: v.dropna(), "unique": lambda v: v.unique(), "sort": lambda v: v.sort_by(),
+    "sort_desc": lambda v: v.sort_by(reverse=True), "to_object": lambda v: v.to_object(), "cast_str": lambda v: v.cast(str),
+    "lshift_nothing": lambda v: v << [], "lshift_own": lambda v: v << [v[0]], "invert": lambda v: ~v, "and_self": lambda v: v & v,
+    "upper": lambda v: v.upper(), "year": lambda v: v.year, "bit_length": lambda v: v.bit_length(), "is_integer": lambda v: v.is_integer(),
+    "column_of_table": lambda v: S.Table({"c": list(v)}).c, "column_after_select": lambda v: S.Table({"c": list(v), "d": list(v)})["d", "c"].cols()[0],
+    "row_slice_column": lambda v: S.Table({"c": list(v)})[0:len(v)].c, "new": lambda v: S.Vector.new(v[0], len(v)),
+}
+RESULT_EL = {"int": st.integers(-3, 9), "float": st.sampled_from([0.5, -1.5, 2.0, 0.0]), "str": st.sampled_from(["a", "b", ""]),
+             "bool": st.booleans(), "date": st.sampled_from([W._date(2020, 1, 1), W._date(2021, 5, 6)])}
+
+
+@st.composite
+def results_case(draw, tier="quick"):
+    kind = draw(st.sampled_from(list(RESULT_EL)))
+    n = draw(st.sampled_from([1, 1, 1, 2, 2, 3, 0, 5]))
+    def column():
+        xs = draw(st.lists(RESULT_EL[kind], min_size=n, max_size=n))
+        if n and draw(st.integers(0, 3)) == 0:
+            xs[draw(st.integers(0, n - 1))] = None
+        return xs
+    ops = draw(st.lists(st.sampled_from(sorted(RESULT_OPS)), min_size=2, max_size=4))
+    return {"kind": kind, "a": column(), "b": column(), "ops": ops, "same_source": draw(st.booleans())}
+
+
+def run_results(case, ctx):
+    """several operation results (of the same or of two different sources) are alive at once; each is then written"""
+    a = S.Vector(list(case["a"])) if case["a"] else S.Vector([], dtype={"int": int, "float": float, "str": str, "bool": bool, "date": W._date}[case["kind"]])
+    b = a if case["same_source"] else (S.Vector(list(case["b"])) if case["b"] else S.Vector([]))
+    held = []
+    for i, name in enumerate(case["ops"]):
+        for src in ((a, b) if i % 2 == 0 else (b, a)):
+            try:
+                r = RESULT_OPS[name](src)
+            except S.AliasError as e:
+                return ctx.fail(f"results/aliaserror-from-non-write/{name}", f"{name} on {list(src)}: {e}")
+            except Exception:  # noqa: BLE001
+                continue              # the operation is not defined for this kind / length
+            if isinstance(r, S.Vector) and not isinstance(r, S.Table):
+                held.append((name, r))
+    snaps = [W.snap(r) for _, r in held]
+    sa, sb = W.snap(a), W.snap(b)
+    for i, (name, r) in enumerate(held):
+        if any(r is q for _, q in held[:i]) or r is a or r is b:
+            continue
+        ctx.ev()
+        try:
+            if len(r):
+                r[0] = r[len(r) - 1]
+            else:
+                r[:] = []
+        except S.AliasError as e:
+            others = sorted({nm for j, (nm, _) in enumerate(held) if j != i})
+            return ctx.fail(f"results/spurious-refusal/{name}/len{min(len(r), 2)}",
+                            f"the result of {name} on a {case['kind']} vector of length {len(case['a'])} refused its first write while the results of {others} were alive: {e}")
+        except Exception:  # noqa: BLE001
+            continue                  # (write-back typing is C03's matter)
+        for j, (nm, q) in enumerate(held):
+            if j != i and q is not r and W.snap(q) != snaps[j]:
+                return ctx.fail(f"results/write-observed-by-another-result/{name}->{nm}", f"{snaps[j]} -> {W.snap(q)}")
+        snaps[i] = W.snap(r)
+        if (W.snap(a), W.snap(b)) != (sa, sb):
+            return ctx.fail(f"results/write-observed-by-the-operand/{name}", f"{sa} -> {W.snap(a)}")
+    ctx.label("results_held", len(held))
+    if len(held) >= 3:
+        ctx.nontrivial()
+
+# ---------------------------------------------------------------- directed: storage a vector moved away from is forgotten
+MOVES = ["same_kind", "promote", "none", "slice_write", "mask_write", "table_cell", "column_replace", "lshift_keep"]
+
+
+@st.composite
+def moved_case(draw, tier="quick"):
+    k = draw(st.integers(1, 6))
+    vecs = []
+    for _ in range(k):
+        kind = draw(st.sampled_from(["int", "bool", "float", "date", "str"]))
+        n = draw(st.integers(1, 6))
+        vecs.append({"kind": kind, "n": n, "move": draw(st.sampled_from(MOVES)), "nullable": draw(st.integers(0, 3)) == 0,
+                     "over_tuple": draw(st.booleans())})
+    return {"vecs": vecs, "fresh": draw(st.integers(8, 40)), "gc": draw(st.booleans())}
+
+
+def run_moved(case, ctx):
+    from datetime import datetime as _dtm
+    base = {"int": lambda i: i, "bool": lambda i: i % 2 == 0, "float": lambda i: i + 0.5, "date": lambda i: W._date(2020, 1, 1 + i), "str": lambda i: "s%d" % i}
+    wider = {"int": 2.5, "bool": 7, "float": 1j, "date": _dtm(2021, 2, 3, 4, 5), "str": "zz"}
+    keep = []
+    for spec in case["vecs"]:
+        kind, n, move = spec["kind"], spec["n"], spec["move"]
+        vals = [base[kind](i) for i in range(n)]
+        if spec["nullable"]:
+            vals[-1] = None
+        if move in ("table_cell", "column_replace"):
+            t = S.Table({"c": list(vals), "d": list(range(n))})
+            try:
+                if move == "table_cell":
+                    t[0, "c"] = wider[kind]
+                else:
+                    t.c = [wider[kind]] * n
+            except S.AliasError as e:
+                return ctx.fail(f"moved/spurious-refusal-on-the-move/{move}", str(e))
+            except Exception:  # noqa: BLE001  (a value the column does not take: the table simply stays as it is)
+                pass
+            keep.append(t)
+            continue
+        # over a caller-owned tuple that the caller lets go of only after the move (its address is then free for reuse,
+        # and nothing of the moved vector may still be filed under it), or over private storage
+        tup = tuple(vals) if spec.get("over_tuple") else None
+        v = S.Vector(tup) if tup is not None else S.Vector(list(vals))
+        try:
+            if move == "same_kind":
+                v[0] = vals[0] if vals[0] is not None else base[kind](0)
+            elif move == "promote":
+                v[0] = wider[kind]
+            elif move == "none":
+                v[0] = None
+            elif move == "slice_write":
+                v[0:1] = [wider[kind]]
+            elif move == "mask_write":
+                v[[True] + [False] * (n - 1)] = wider[kind]
+            else:
+                keep.append(v << [base[kind](9)])
+        except S.AliasError as e:
+            return ctx.fail(f"moved/spurious-refusal-on-the-move/{move}", f"{kind} vector of length {n}: {e}")
+        except Exception:  # noqa: BLE001  (e.g. a bool vector that rejects an int: no move took place)
+            pass
+        del tup
+        keep.append(v)
+    if case["gc"]:
+        gc.collect()
+    # fresh vectors of every length in play: none of them shares storage with anything
+    lengths = sorted({spec["n"] for spec in case["vecs"]} | {2})
+    fresh = []
+    for L in lengths:
+        # created first, written afterwards: while they are all alive each one occupies its own storage, so a freed
+        # address that is still registered is handed to one of them
+        batch = [S.Vector(list(range(L))) for _ in range(case["fresh"])]
+        fresh.append(batch)
+        for w in batch:
+            ctx.ev()
+            try:
+                w[0] = 99
+            except S.AliasError as e:
+                moves = sorted({f"{sp['kind']}/{sp['move']}" for sp in case["vecs"] if sp["n"] == L}) or ["-"]
+                return ctx.fail(f"moved/spurious-refusal/fresh-vector/{moves[0]}",
+                                f"a fresh Vector of length {L} refused its first write after {[(sp['kind'], sp['n'], sp['move']) for sp in case['vecs']]}: {e}")
+    ctx.label("moved_vectors", len(keep))
+    if len({sp["move"] for sp in case["vecs"]}) >= 2:
+        ctx.nontrivial()
+    del fresh
+
 
 def parts(tier):
     mx = 30 if tier == "quick" else 60
     classes = ["construct", "view", "write", "lifetime", "derive", "rename"]
     extra = ["vec_tuple"] * 14 + ["slice", "slice", "slice", "copy", "mask", "sort", "math", "set_slice", "set_mask", "attr_assign", "attr_assign", "drop_tuple", "drop_tuple", "set_int", "set_int", "set_slice", "drop", "churn", "gc", "rshift", "vec_of_vecs", "attr_assign", "table_dupnames", "table_dupnames"]
     return [Part("histories", run, strategy=lambda t: W.program(max_steps=mx, classes=classes, always=("construct", "write", "lifetime"), extra_ops=extra),
-                 examples=(3000, 40000), shards=(12, 16), floors={"has_shared_pair": 0.12, "has_table_constructor": 0.5, "column_replaced_through_indexed_accessor": 0.005})]
+                 examples=(3000, 40000), shards=(12, 16), floors={"has_shared_pair": 0.12, "has_table_constructor": 0.5, "column_replaced_through_indexed_accessor": 0.005}),
+            Part("results", run_results, strategy=lambda t: results_case(t), examples=(3000, 80000), shards=(4, 16)),
+            Part("moved", run_moved, strategy=lambda t: moved_case(t), examples=(1200, 30000), shards=(4, 16))]
